@@ -4,6 +4,7 @@
 # Copyright (c) 2005-2020, Ilya Etingof <etingof@gmail.com>
 # License: http://snmplabs.com/pyasn1/license.html
 #
+import decimal
 import os
 
 from pyasn1 import debug
@@ -482,6 +483,27 @@ class ObjectIdentifierPayloadDecoder(AbstractSimplePayloadDecoder):
 class RealPayloadDecoder(AbstractSimplePayloadDecoder):
     protoComponent = univ.Real()
 
+    @staticmethod
+    def _parseDecimal(chunk):
+        """The (mantissa, 10, exponent) an NR2 / NR3 character form denotes.
+
+        Exactly, not through a float: neither the mantissa nor the
+        exponent is bounded by the double range.
+        """
+        try:
+            number = decimal.Decimal(chunk.decode('ascii'))
+
+        except (ValueError, decimal.InvalidOperation):
+            number = None
+
+        if number is None or not number.is_finite():
+            raise error.SubstrateUnderrunError('Bad character Real syntax')
+
+        sign, digits, exponent = number.as_tuple()
+        mantissa = int(''.join(map(str, digits)) or '0')
+
+        return sign and -mantissa or mantissa, 10, exponent
+
     def valueDecoder(self, substrate, asn1Spec,
                      tagSet=None, length=None, state=None,
                      decodeFun=None, substrateFun=None,
@@ -565,11 +587,8 @@ class RealPayloadDecoder(AbstractSimplePayloadDecoder):
                 if fo & 0x3 == 0x1:  # NR1
                     value = (int(chunk), 10, 0)
 
-                elif fo & 0x3 == 0x2:  # NR2
-                    value = float(chunk)
-
-                elif fo & 0x3 == 0x3:  # NR3
-                    value = float(chunk)
+                elif fo & 0x3 in (0x2, 0x3):  # NR2, NR3
+                    value = self._parseDecimal(chunk)
 
                 else:
                     raise error.SubstrateUnderrunError(
